@@ -80,7 +80,7 @@ Definition since_ok (top : N) (f : hfilter) : Prop :=
 Lemma hist_pubs_sel s f :
   stream_inv s -> since_ok (ms_top s) f -> hist_pubs s f = hist_sel (ms_items s) f.
 Proof.
-  intros (_ & Hb & _ & lo & Hlo & Hc) Hs. unfold hist_pubs, hist_sel, since_ok in *.
+  intros (_ & Hb & _ & _ & lo & Hlo & Hc) Hs. unfold hist_pubs, hist_sel, since_ok in *.
   destruct (hf_since f) as [[so se]|].
   - destruct Hs as [Hso Hrev].
     destruct (hf_reverse f) eqn:Er; cbn [negb andb].
@@ -178,7 +178,7 @@ Qed.
 
 Lemma items_bound s : stream_inv s -> forall it, In it (ms_items s) -> (1 <= fst it <= ms_top s)%N /\ (ms_top s < BOUND)%N.
 Proof.
-  intros (_ & Hb & _ & lo & Hlo & Hc) it Hin. pose proof (contig_bounds _ _ _ Hc it Hin). lia.
+  intros (_ & Hb & _ & _ & lo & Hlo & Hc) it Hin. pose proof (contig_bounds _ _ _ Hc it Hin). lia.
 Qed.
 
 Lemma go_parse_3 top ep l :
@@ -320,7 +320,8 @@ Qed.
 
 Lemma stream_inv_new nonce : nonce_ok nonce = true -> stream_inv (stream_new nonce).
 Proof.
-  intros H. unfold stream_inv, stream_new. cbn. repeat split; try assumption; try (unfold BOUND; lia).
+  intros H. unfold stream_inv, stream_new. cbn. split; [assumption|]. split; [unfold BOUND; lia|]. split; [lia|].
+  split; [intros it []|].
   exists 1%N. split; [lia|]. apply contig_nil. reflexivity.
 Qed.
 
